@@ -236,7 +236,16 @@ class Run:
                     kw["width"] = a["cx"]
                 if a["args"] in ("h", "both"):
                     kw["height"] = a["cy"]
-                pic = sl.shapes.add_picture(self._src(a["img"], a["via"]), 11111, 22222, **kw)
+                target = sl.shapes
+                if a["via"] == "ingroup":
+                    # into a group that was RESIZED (its frame is not its child window: a:ext != a:chExt, as after a resize in PowerPoint
+                    # or through group.width / group.height): the picture's native size is the image's, whatever the group looks like
+                    from pptx.enum.shapes import MSO_SHAPE
+                    g = sl.shapes.add_group_shape()
+                    g.shapes.add_shape(MSO_SHAPE.RECTANGLE, 0, 0, 1000000, 500000)
+                    g.width, g.height = 3000000, 700000
+                    target = g.shapes
+                pic = target.add_picture(self._src(a["img"], a["via"]), 11111, 22222, **kw)
                 self._note_pic(a["slide"], pic, a)
             elif op == "insertPicture":
                 sl = prs.slides.add_slide(prs.slide_layouts[8])
@@ -284,7 +293,12 @@ class Run:
         for p, (k, sid) in zip(self.pics, self.refs):
             now = -1
             try:
-                shp = next(s for s in slides[k - 1].shapes if s.shape_id == sid)
+                def walk(shs):
+                    for s_ in shs:
+                        yield s_
+                        if s_.shape_type is not None and s_.shape_type.name == "GROUP":
+                            yield from walk(s_.shapes)
+                shp = next(s for s in walk(slides[k - 1].shapes) if s.shape_id == sid)
                 now = self.by_sha.get(hashlib.sha1(shp.image.blob).hexdigest(), 0)
             except Exception:
                 now = -1
